@@ -13,25 +13,24 @@ DEMO_DIR=$(head -5 $D/demo_test.go | grep -o 'plenc[a-z/]*/\|root\|repo root' | 
 PKG=$(grep -m1 '^package ' $D/demo_test.go | awk '{print $2}')
 case "$PKG" in plenc|plenc_test) SUB=. ;; plenccore|plenccore_test) SUB=plenccore ;; plenccodec|plenccodec_test) SUB=plenccodec ;; null|null_test) SUB=null ;; main|main_test) SUB=cmd/plenctag ;; *) SUB=. ;; esac
 cp $D/demo_test.go $S/$SUB/zz_seed_demo_test.go
-( cd $S && go test -vet=off -count=1 -run . ./$SUB > $S/base.log 2>&1 ); BASE=$?
+( cd $S && go test -vet=off -count=1 -run 'TestSeed' ./$SUB > $S/base.log 2>&1 ); BASE=$?
 ( cd $S && patch -p1 -s < $D/patch.diff ) || { echo "patch does not apply"; rm -rf $S; exit 2; }
 ( cd $S && go build ./... ) || { echo "mutant does not build"; rm -rf $S; exit 2; }
-( cd $S && go test -vet=off -count=1 ./$SUB > $S/mut.log 2>&1 ); MUT=$?
+( cd $S && go test -vet=off -count=1 -run 'TestSeed' ./$SUB > $S/mut.log 2>&1 ); MUT=$?
 rm $S/$SUB/zz_seed_demo_test.go
 SUITE=1; for i in 1 2 3; do ( cd $S && go test -vet=off -count=1 ./... > $S/suite.log 2>&1 ) && { SUITE=0; break; }; done
 echo "demo on unmodified code: exit $BASE (want 0); demo on mutant: exit $MUT (want !=0); existing suite on mutant: exit $SUITE (want 0)"
-rm -rf $S
-# run the checks against /repo with the patch applied
-git -C /repo apply $D/patch.diff || { echo "cannot apply to /repo"; exit 2; }
+# run the checks against the scratch copy with the patch applied (/repo itself is never touched: the must-fail corpus
+# and other checks may be reading it)
 RES=""
 for Q in $P $OTHERS; do
-  OUT=$(/verif/bin/plencvc check --property $Q --no-evidence --replay-dir /tmp/seed-replays-$ID 2>&1); RC=$?
+  OUT=$(/verif/bin/plencvc check --property $Q --repo $S --no-evidence --replay-dir /tmp/seed-replays-$ID 2>&1); RC=$?
   NV=$(echo "$OUT" | grep -c '^VIOLATION'); NR=$(echo "$OUT" | grep '^VIOLATION' | grep -vc 'no-failing-input-found')
   echo "check $Q on mutant: exit $RC, $NV violation line(s), $NR replayed"
   echo "$OUT" | grep -A2 '^VIOLATION' | head -12 | cut -c1-260
   RES="$RES $Q:exit=$RC,violations=$NV,replayed=$NR"
 done
-git -C /repo checkout -- . ; git -C /repo status --short | head -3
+rm -rf $S
 rm -rf /tmp/seed-replays-$ID
 python3 - <<PY
 import json,os
@@ -41,7 +40,7 @@ except Exception: pass
 m={"id":"$ID","property":"$P","summary":a.get("summary",""),"needs":a.get("needs",""),
    "confirmed":{"demo_passes_without_patch":$BASE==0,"demo_fails_with_patch":$MUT!=0,"existing_suite_passes_with_patch":$SUITE==0},
    "ran":["scratch copy of /repo outside /repo and /verif: go test of the demo without and with patch.diff; go test -vet=off -count=1 ./... with the patch",
-          "git -C /repo apply patch.diff; plencvc check --property ...; git -C /repo checkout -- ."],
+          "plencvc check --property ... --repo <the scratch copy with patch.diff applied>"],
    "check_results":"$RES".split()}
 json.dump(m,open(d+"/meta.json","w"),indent=1)
 PY
